@@ -12,6 +12,14 @@ _NP_BOUND = "batches of length 0, 1, 2, 4, 11 over {0.5, nan, -inf, inf, -1, 0, 
 _NP_CLASSES = ["Count", "Sum", "Average", "Deviate", "Minimize", "Maximize", "Bag", "Bin", "SparselyBin", "CentrallyBin", "IrregularlyBin", "Stack", "Fraction", "Select", "Categorize", "Label", "UntypedLabel", "Index", "Branch"]
 _NP_MOD = {"Count": "count", "Sum": "sum", "Average": "average", "Deviate": "deviate", "Minimize": "minmax", "Maximize": "minmax", "Bag": "bag", "Bin": "bin", "SparselyBin": "sparselybin", "CentrallyBin": "centrallybin", "IrregularlyBin": "irregularlybin", "Stack": "stack", "Fraction": "fraction", "Select": "select", "Categorize": "categorize", "Label": "collection", "UntypedLabel": "collection", "Index": "collection", "Branch": "collection"}
 
+C13_BOUND = (
+    "Bin (num, low, high) in {(10,0,1), (3,0,1), (7,-2.5,4.5), (10,0.1,1.1), (1,0,1), (100,1000,1000.5), (6,-1e6,1e6)}; "
+    "SparselyBin (width, origin) in {(1,0), (0.1,0), (1/3,0.5), (0.5,1000.25), (2,-7)} incl. negative indexes; "
+    "CentrallyBin centres {(0,1,2.5), (-3,-1,0.5,10), (1000,1000.5,1001.5)}; IrregularlyBin edges {(0,1,2), (-1.5,0.1,0.3,7), (1000,1000.5)}; "
+    "probe data = every edge / midpoint, each +-1 ulp, and values outside the domain; sub-ranges = ordered pairs of those probes inside the "
+    "binned domain (at most 400 per configuration); edge-vs-datum comparisons allow 8 ulp of the largest edge, counts and contents are exact"
+)
+
 NATIVE = {
     "C03": [(f"C03:numpy-{K}", f"histogrammar.primitives.{_NP_MOD[K]}.{K}._numpy", "bounded:numpy-equals-rowwise", _NP_BOUND) for K in _NP_CLASSES]
     + [
@@ -45,6 +53,19 @@ NATIVE = {
          "toJson on Bags of range N / S / N2 leaves the Bag unchanged"),
         ("C06:Bag.__eq__", "histogrammar.primitives.bag.Bag.__eq__", "bounded:frame",
          "== / != on Bags filled with up to 2 data leave both operands' JSON unchanged"),
+    ],
+    "C13": [
+        (f"C13:{K}", f"histogrammar.primitives.{_NP_MOD[K]}.{K}.bin_edges", "bounded:accessors-agree-with-fill-in-floating-point",
+         "double-precision stand-in for the rounding level that A-REAL abstracts: " + C13_BOUND)
+        for K in ("Bin", "SparselyBin", "CentrallyBin", "IrregularlyBin")
+    ]
+    + [
+        ("C13:Categorize", "histogrammar.primitives.categorize.Categorize.bin_labels", "bounded:labels-entries-mpv-agree-with-bins",
+         "Categorize filled with 0..6 string categories: bin_labels / bin_entries / n_bins / bin_entries(labels=...) / mpv against the bins"),
+        ("C13:mpv", "histogrammar.primitives.bin.Bin.mpv", "bounded:mpv-is-centre-of-fullest-bin",
+         "one filled instance of Bin, SparselyBin, CentrallyBin, IrregularlyBin: mpv equals the centre of the first bin holding the maximum"),
+        ("C13:grid", "histogrammar.plot.hist_numpy.get_2dgrid", "bounded:grid-holds-in-range-weights",
+         "Bin x Bin, SparselyBin x SparselyBin, Bin x SparselyBin filled with 12 weighted points (in range, under/overflow, NaN): grid shape, total = in-range weight, rows / columns = projections"),
     ],
     "C17": [
         ("C17:string-expr", "histogrammar.util.UserFcn.__call__", "bounded:string-expression-equals-function",
